@@ -14,10 +14,11 @@ namespace Verif.C11.Compose
 open Verif.C11
 
 /-- C11's datatype as C08's -/
-def dtype08 : DType → Verif.C08.DType
-  | .integer => .integer
-  | .string => .string
-  | .date => .date
+def dtype08 : DType → Option Verif.C08.DType
+  | .integer => some .integer
+  | .string => some .string
+  | .date => some .date
+  | .float => none          -- floats are a parameter in C08 as well
 
 /-- a date-time as the sortable number YYYYMMDDhhmmss (the encoding of `Val.date`) -/
 def dateKey (t : Verif.C08.DT) : Nat :=
@@ -34,9 +35,13 @@ def castVal (dt : DType) (raw : Option (List Char)) : Option Val :=
   match raw with
   | none => some .none
   | some r =>
-    match Verif.C08.cast (dtype08 dt) r with
-    | .val v => some (val08 v)
-    | .err _ => none
+    match dtype08 dt with
+    | none => some .none     -- a :float cell: its value is never looked at (no float keys: `DB.wf`;
+                             -- conditions on float columns answer `unmodelled` or `TSQLError`)
+    | some d8 =>
+      match Verif.C08.cast d8 r with
+      | .val v => some (val08 v)
+      | .err _ => none
 
 /-- a relation as it is on disk: raw cells (`None` for an empty field) -/
 structure RawRel where
